@@ -37,6 +37,7 @@ type Ctx struct {
 	Prog  *ssa.Program
 	SSA   map[string]*ssa.Package
 	Funcs []*ssa.Function // all source functions of the module (incl. closures, instantiations)
+	okGuardAt ssa.Instruction // NIL-TYPED: the use site whose dominating tests may guard a helper's comma-ok result
 
 	roles        map[string]any // memoised role resolutions
 	cycleMemo    map[*ssa.Function]bool
